@@ -177,6 +177,7 @@ func (fr *frame) call(x *ssa.Call, st *State, pos string) Value {
 			return c.byContract(ct, cc.Signature(), args, st, pos)
 		}
 		c.unsupported("interface method call %s without contract at %s", key, pos)
+		c.unknownWrites(st, cc.Signature(), key, pos)
 		return c.havocResults(st, cc.Signature().Results(), cc.Method.Name())
 	}
 	for _, a := range cc.Args {
@@ -254,7 +255,32 @@ func (fr *frame) staticCall(x *ssa.Call, fn *ssa.Function, args []Value, binding
 		}
 	}
 	c.unsupported("call of %s without contract at %s", key, pos)
+	c.unknownWrites(st, fn.Signature, key, pos)
 	return c.havocResults(st, fn.Signature.Results(), fn.Name())
+}
+
+// unknownWrites: a callee without contract that is handed references may write through them. In a function
+// with a frame clause that is an obligation nobody can discharge (the frame is not shown).
+func (c *FnCtx) unknownWrites(st *State, sig *types.Signature, key, pos string) {
+	if !c.hasFrame || c.ghost > 0 || c.dry > 0 {
+		return
+	}
+	refs := false
+	check := func(t types.Type) {
+		switch t.Underlying().(type) {
+		case *types.Pointer, *types.Slice, *types.Map, *types.Interface, *types.Chan, *types.Signature:
+			refs = true
+		}
+	}
+	if r := sig.Recv(); r != nil {
+		check(r.Type())
+	}
+	for i := 0; i < sig.Params().Len(); i++ {
+		check(sig.Params().At(i).Type())
+	}
+	if refs {
+		c.oblige(st, "frame", c.f.False(), pos, "call of "+key+" has no contract: what it writes through its reference arguments is unknown")
+	}
 }
 
 // promotedContract walks up embedded-field selections of the receiver operand and looks for a contract
